@@ -116,6 +116,7 @@ func runFail(vm *ugo.VM, globals ugo.Object, args []ugo.Object) (string, *traceR
 	ugo.VerifTraceHook = tr.hook
 	defer func() { ugo.VerifTraceHook = nil }()
 	vm.SetRecover(true)
+	tr.abort = vm.Abort // deterministic step bound (stepLimit), as in runTraced
 	done := make(chan struct{})
 	var ret ugo.Object
 	var err error
@@ -127,9 +128,13 @@ func runFail(vm *ugo.VM, globals ugo.Object, args []ugo.Object) (string, *traceR
 	}()
 	select {
 	case <-done:
-	case <-time.After(5 * time.Second):
+	case <-time.After(20 * time.Second):
+		tr.timedOut = true
 		vm.Abort()
 		<-done
+	}
+	if tr.timedOut {
+		return fmt.Sprintf("out=timeout\tsteps=%d\tth=0\tglobals=-", tr.steps), tr, pv
 	}
 	g := vm.GetGlobals()
 	gs := "onil:0"
@@ -210,7 +215,7 @@ func failOne(c *Ctx, src string, class, wrap string, host bool, noOpt bool, args
 	impl2, _, pv2 := runFail(vm, mkGlobals(), args)
 	if pv2 != nil {
 		viol("C06:escaped-panic-rerun:"+class, fmt.Sprintf("second Run on the same VM panicked: %v", pv2))
-	} else if pv == nil && impl2 != impl && ctlPart(impl2) != ctlPart(impl) && !strings.Contains(impl, "564d41626f727465644572726f72") && !strings.Contains(impl2, "564d41626f727465644572726f72") {
+	} else if pv == nil && impl2 != impl && ctlPart(impl2) != ctlPart(impl) && !strings.HasPrefix(impl, "out=timeout") && !strings.HasPrefix(impl2, "out=timeout") {
 		// (texts may legitimately differ: String() of a multi-key map follows Go's map iteration order;
 		// the outcome class, instruction count and trace hash must not)
 		viol("C06:rerun-differs:"+class, fmt.Sprintf("second Run of the same bytecode on the same VM differs: first %s second %s", short(impl), short(impl2)))
@@ -339,8 +344,12 @@ func init() {
 				if impl == "" {
 					continue
 				}
-				if strings.Contains(impl, "564d41626f727465644572726f72") {
-					c.Count("aborted-by-watchdog") // VMAbortedError: not compared with the model
+				if strings.HasPrefix(impl, "out=timeout") {
+					c.Count("skipped:step-limit")
+					continue
+				}
+				if strings.Contains(impl, codec.Cyclic) {
+					c.Count("skipped:cyclic-value")
 					continue
 				}
 				cls := strings.SplitN(strings.TrimPrefix(impl, "out="), " ", 2)[0]
